@@ -108,6 +108,7 @@ def _configs(tier):
         ("voice_gap", [(2, [1, 3], 1), (2, [1, 2], 1)]),
         ("five_voices_one_staff", [(2, [1, 2, 3, 4, 5], 1), (2, [1, 2], 1)]),
         ("missing_staff", [(2, [1], 1, True), (4, [1, 2], 1, True)]),
+        ("common_divisions_above_32767", [(10080, [1], 1), (768, [1], 1), (480, [1], 1)]),
     ]
     if tier == "thorough":
         c += [("lcm_exceeds_all", [(4, [1], 1), (6, [1], 1), (10, [1], 1)]), ("two_staves_three_voices_each", [(2, [1, 2, 3], 2), (2, [1, 2, 3], 2), (2, [1], 1)])]
@@ -212,6 +213,20 @@ def bounded(b):
         ok2, mg = b.guard("merge/no_exception", case, lambda: sc.merge_parts(sco))
         b.case("merge/score_keeps_distinct_parts_with_equal_ids", len(sco.parts) == 2 and len(na) == len(pa.notes_tied) + len(pb.notes_tied) and (not ok2 or len(mg.notes_tied) == len(na)), case,
                "%d parts in the score, %d rows, %d + %d notes given" % (len(sco.parts), len(na), len(pa.notes_tied), len(pb.notes_tied)))
+    # a score whose part list was edited after construction (score[i] = part): merging and the score-level note array follow the edit
+    pa, pb, pc = _mk_part("P0", 2, [1], 1, 3), _mk_part("P1", 3, [1], 1, 4), _mk_part("P2", 4, [1, 2], 1, 5)
+    sco = G.simple_score([pa, pb])
+    case = {"score_edited_after_construction": "score[1] = another part"}
+    ok, _ = b.guard("merge/no_exception", case, lambda: sco.__setitem__(1, pc))
+    if ok:
+        ok, res = b.guard("merge/no_exception", case, lambda: (sco.note_array(), sc.merge_parts(sco)))
+        if ok:
+            na, mg = res
+            want = sorted((Fraction(n.start.t, p._quarter_durations[0]), n.midi_pitch) for p in (pa, pc) for n in p.notes_tied)
+            got_na = sorted((Fraction(float(r["onset_quarter"])).limit_denominator(64), int(r["pitch"])) for r in na)
+            got_mg = sorted((Fraction(n.start.t, mg._quarter_durations[0]), n.midi_pitch) for n in mg.notes_tied)
+            b.case("merge/sounding_notes_equal_the_score_level_note_array", got_na == want and got_mg == want, case,
+                   "score-level array has %d notes, merged part %d, the score's parts %d" % (len(got_na), len(got_mg), len(want)))
     # single part returned as is
     for wrap in ("list", "group", "score"):
         p = _mk_part("P0", 2, [1], 1, 4)
